@@ -470,6 +470,9 @@ func (e *Engine) runPath(fn *ssa.Function, it workItem, solver *Solver) {
 		r.sched.killAll()
 	}
 	// an escaping panic of the target is an assertion failure of its own
+	if (outcome == "target-panic" || outcome == "target-runtime-panic") && len(r.rtPanics) > 0 {
+		detail += " [first run-time panic in " + r.rtPanics[0] + "]"
+	}
 	switch outcome {
 	case "target-panic", "target-runtime-panic":
 		e.recordFinding(r, "uncaught-panic", "", r.model, detail)
